@@ -121,7 +121,8 @@ pub fn build_world(seed: u64, tokens: &str, rewards: bool, adaptive: bool, rec: 
         let divisors: Vec<u16> = (1..=spacing.min(512)).filter(|d| spacing % d == 0).collect();
         let gs = pick(&mut w, &divisors);
         let filter = pick(&mut w, &[1u16, 5, 30, 60]);
-        let decay = filter + pick(&mut w, &[1u16, 10, 120, 600]);
+        // (a decay period longer than the one-hour maximum age of the reference is valid)
+        let decay = filter + pick(&mut w, &[1u16, 10, 120, 600, 600, 4000, 20000]);
         let max_acc_cap = (u32::MAX as u64 / gs as u64).min(u32::MAX as u64) as u32;
         let bias = AF_BIAS.with(|c| c.get());
         let c = crate::world2::AfConstants {
@@ -393,7 +394,7 @@ pub fn random_step(w: &mut World, sc: &Scenario, rec: &mut Recorder) {
         let filter = pick(w, &[1u16, 5, 30, 60]);
         let c = crate::world2::AfConstants {
             filter_period: filter,
-            decay_period: filter + pick(w, &[1u16, 10, 120, 600]),
+            decay_period: filter + pick(w, &[1u16, 10, 120, 600, 5000]),
             reduction_factor: pick(w, &[0u16, 500, 5000, 9999]),
             adaptive_fee_control_factor: pick(w, &[0u32, 100, 4000, 50000]),
             max_volatility_accumulator: pick(w, &[0u32, 10_000, 20_000, 35_000, 350_000]),
